@@ -25,13 +25,16 @@ def Box.outside (b : Box) (x : FVec) : Bool :=
 /-- `misfit_bounds` -/
 def Box.misfitBounds (b : Box) (x : FVec) : Float := if b.outside x then finf else 0.0
 
-/-- `corrector` for one box: coordinate-wise `reflect1` -/
+def fIsOdd (k : Float) : Bool := k - 2.0 * Float.floor (k / 2.0) != 0.0
+def fFinite (x : Float) : Bool := !(x.isNaN || x.isInf)
+
+/-- `corrector` for one box: coordinate-wise `corrector1` -/
 def Box.reflect (b : Box) (s : PS FVec) : PS FVec := Id.run do
   let n := s.q.size
   let mut q := s.q.a
   let mut p := s.p.a
   for i in [0:n] do
-    let r := reflect1 (b.lb.map (·.get i)) (b.ub.map (·.get i)) (s.q.get i) (s.p.get i)
+    let r := corrector1 Float.floor fIsOdd fFinite (b.lb.map (·.get i)) (b.ub.map (·.get i)) (s.q.get i) (s.p.get i)
     q := q.set! i r.1
     p := p.set! i r.2
   return ⟨⟨q⟩, ⟨p⟩⟩
